@@ -12,7 +12,9 @@ def run():
     t0 = time.time()
     b = Bounded(PROP, 'harness.c03')
     driver.run(b)
-    cov = b.coverage(rule=driver.rule_text(b.tier), exhaustive=True, extra={'counts': dict(b.notes)})
+    # complete unless parses of wrongly accepted left-recursive grammars were skipped (see rule)
+    complete = not b.notes.get('accepted-left-recursive:parses-not-run')
+    cov = b.coverage(rule=driver.rule_text(b.tier), exhaustive=complete, extra={'counts': dict(b.notes)})
     return finish(PROP, 'exploration', b.violations(), [], b.errors, cov,
                   ["grammars are well-formed: start symbol defined, every referenced symbol is a declared token or a "
                    "defined nonterminal, no alternative listed twice for a symbol (two identical alternatives make the "
